@@ -251,6 +251,22 @@ CLAIMS = {
         'the correspondence only. No axioms.',
    technique='Coq lexer lemmas per layout dimension + token-level parser theorem + pairwise comparison of all observables across layouts',
    ref='section 9, C14'),
+ 'C08': dict(
+   category='proof',
+   text='Decided on the implementation\'s own output by an independent JSON Schema validator (python jsonschema, draft-04 semantics with exact '
+        'numbers, OpenAPI 3.0 `nullable` lowered): for generated schema models and the sample schemas, Example() and the OpenAPI conversion '
+        'succeed, the output is a well-formed Schema Object (keyword and type discipline checked), and the example and - one scalar at a time - '
+        'every value of a pool that the leaf\'s own rules accept (judged by the exact C01 oracle) are valid instances, with the registered '
+        'types converted as components. Coq theorem (translation soundness for the keywords with arithmetic content): every value the checker '
+        'accepts for a node with type and min/max rules, whatever the spelling of value and bounds, is valid against the type / minimum / '
+        'exclusiveMinimum / maximum / exclusiveMaximum the converter emits, under the JSON Schema meaning of those keywords on the denoted '
+        'decimal values (through C01/C13); the emitted keywords are tied to the model by correspondence.',
+   note='Trusted: Coq kernel; the validator (jsonschema 4.26, formats not enforced) and the well-formedness rules in lib/oracles/oas_validate.py; '
+        'the C01 oracle for "still accepted"; harness. Partial: the theorem covers scalar nodes with type and bound rules; the other keywords '
+        '(lengths, enum, multipleOf, containers, references, anyOf) are decided by the validator only. Known finding F08b (allOf next to '
+        'additionalProperties: false) is pinned by the existing tests and not repaired. No axioms.',
+   technique='translation validation by an independent validator + Coq soundness theorem of the rule->keyword translation for numeric bounds',
+   ref='section 9, C08'),
 }
 
 def main():
